@@ -16,6 +16,8 @@
     regex_flags_documented scan_new_lossless scan_old_lossless scan_new_print_roundtrip
     text_reaches_stream_escaped text_reaches_stream_escaped_old text_reaches_output_verbatim
     expression_boundaries_text_template scan_old_line_roundtrip_partial
+    tokenize_print_roundtrip reader_inverts_layout interpolate_any_number_of_pieces
+    raw_print_roundtrip_tokens raw_print_roundtrip source_text_eq_doc raw_loop_commutes
 -/
 import Genshi.Lemmas.TmplSimMain
 import Genshi.Lemmas.TmplSimRev
@@ -27,6 +29,8 @@ import Genshi.Lemmas.TmplExtract
 import Genshi.Lemmas.TmplText
 import Genshi.Lemmas.TmplScanText
 import Genshi.Lemmas.TmplScanOld
+import Genshi.Lemmas.TmplInv
+import Genshi.Lemmas.TmplRawLoop
 namespace Genshi.Props.C04
 open Genshi Genshi.Tmpl
 
@@ -696,5 +700,104 @@ example : Genshi.Py.Lex.Scannable cs!"x" ∧ plainNew cs!"a ${x}!" = true ∧ Ge
 example : parseNew cs!"a ${x}!" = .ok [.text cs!"a ", .expr cs!"x", .text cs!"!"] := by rfl
 
 end Scanners
+
+/-! ### the reader of text templates inverts the printer (`Model/TmplPrint.lean`, `Model/TmplRaw.lean`) -/
+
+section Inversion
+open Genshi.Tmpl.Print Genshi.Tmpl.Raw Genshi.Tmpl.Scan
+
+/-- **The tokenizer inverts the token printer**, for every list of tokens the tokenizer can produce
+    (identifiers, numbers, string literals without quote / backslash / line feed, the symbols, `==`):
+    written with a blank where the documented layout has one or where two tokens would run together
+    (`sep`), the list is tokenized to itself. -/
+theorem tokenize_print_roundtrip (ts : List MTok) (h : ts.all tokOk = true) : tokenize (toksSrc ts) = some ts :=
+  tokenize_print ts h
+
+example : toksSrc [.sym '(', .name cs!"x", .eqeq, .sym '(', .sym '-', .int 12, .sym ')', .sym ')'] = cs!"(x == (-12))" := by
+  decide
+
+/-- **The reader inverts the layout of the mini language**: expressions (names, None/True/False,
+    integers, strings, list and dict literals, `==`, `not`, `len`, indexing — nested in any way),
+    `${…}` sources (an expression or a macro call with positional and keyword arguments) and the value
+    of every text-template directive (`def` with parameters and defaults, `for`, `if`, `when`, `choose`,
+    `otherwise`, `with`) are read back from their printed source, under either lookup mode. -/
+theorem reader_inverts_layout (st : Bool) :
+    (∀ e, exprOk st e = true → readExpr st (exprSrc e) = some e) ∧
+    (∀ x, xexprOk st x = true → readXExpr st (xexprSrc x) = some x) ∧
+    (∀ d, dirOk st d = true → readDir st d.name (dirSrc d) = some d) := by
+  refine ⟨?_, readXExpr_print st, readDir_print st⟩
+  intro e h
+  unfold readExpr exprSrc
+  have ht : tokenize (toksSrc (exprToks e)) = some (exprToks e) := tokenize_print _ (xexprToks_ok st (.pure e) h)
+  rw [ht]
+  exact readExprToks_print st e h
+
+/-- **`interpolate` on any number of pieces** (generalises `expression_boundaries_text_template`):
+    a run of non-empty `$`-free texts (never two in a row) and `${…}` expressions with scannable,
+    non-empty sources is cut into exactly these pieces. -/
+theorem interpolate_any_number_of_pieces (ps : List (Bool × List Char)) (h : SegOK ps)
+    (hm : Genshi.Py.Lex.unmodelled (segSrc ps) = false) : interpolate (segSrc ps) = .ok (ps.map pieceEv) :=
+  interpolate_seg ps h hm
+
+/-- **Inversion of the text-template reader, on token lists.**  Every list of template tokens
+    (texts without backslash / `$` / `{`, never two in a row; `${…}`; `{% directive %}`; `{% end %}` —
+    balanced or not) that satisfies the decidable side condition `ttoksOk`, printed in the new text
+    syntax, is read back — scanner, `_escape_re`, `interpolate` over `lex`, tokenizer, reader of
+    expressions and directive values — to exactly the list it was printed from.  (`hm`: the printed
+    text is inside the domain of the C03 lexer model: ASCII, no triple quotes.) -/
+theorem raw_print_roundtrip_tokens (st : Bool) (ts : List TTok) (h : ttoksOk st ts = true)
+    (hm : Genshi.Py.Lex.unmodelled (ttoksNew ts) = false) : rawToks false st (ttoksNew ts) = .ok ts :=
+  rawToks_print_flat st ts h hm
+
+/-- **Inversion of the text-template reader.**  For every text-template AST satisfying the
+    decidable side condition `nodesOk` (maximal non-empty texts without backslash / `$` / `{`;
+    identifiers that are not words of the mini language; string literals without quote, backslash,
+    line feed, `%`, `#`; directives of the text languages; `with` with at least one binding; parameters
+    with defaults last, keyword arguments last): the source text printed from the AST is read back to
+    the token form of the AST — `rawToks (print ns) = toTokss ns`. -/
+theorem raw_print_roundtrip (st : Bool) (ns : List TNode) (h : nodesOk st ns = true)
+    (hm : Genshi.Py.Lex.unmodelled (nodesNew ns) = false) : rawToks false st (nodesNew ns) = .ok (toTokss ns) :=
+  rawToks_print st ns h hm
+
+/-- **`impl_eq_doc` as a statement about template source text.**  For every such AST and all data:
+    the documentation semantics defines the output `o` of the AST iff the template *source*, read
+    and compiled from its characters (`renderRaw`: scanner, escapes, `lex`/`interpolate`, reader,
+    token loop, `_prepare`, `_flatten` with the directive chain), renders exactly `o`:
+    `render (parse (print ast)) = doc ast`. -/
+theorem source_text_eq_doc (st : Bool) (ns : List TNode) (data : Env) (o : List Event)
+    (h : nodesOk st ns = true) (hm : Genshi.Py.Lex.unmodelled (nodesNew ns) = false) :
+    (∃ n, docRender n ns data = .ok o) ↔ (∃ m, renderRaw m false st (nodesNew ns) data = .ok (.ok o)) := by
+  rw [impl_eq_doc ns data o (nodesOk_text st ns h).2]
+  simp only [renderRaw_print st ns h hm, Except.ok.injEq]
+
+/-- **The raw token loop commutes with reading.**  Whenever a source can be read into tokens, the
+    stream `NewTextTemplate._parse` builds from the raw (command, value) pairs (`parseNew`: depth
+    counter, `dirmap`, SUB events carrying command and value *strings*), read event by event, is the
+    stream `textParse` builds from the read tokens — the loop all run-time theorems are about. -/
+theorem raw_loop_commutes (st : Bool) (src : List Char) (toks : List TTok)
+    (h : rawToks false st src = .ok toks) :
+    ∃ evs, parseNew src = .ok evs ∧ ReadEvs st evs (textParse toks) :=
+  parseNew_commutes st src toks h
+
+/-- a template with a loop, a macro with a default, calls by position and by keyword (None) -/
+private def exInv : List TNode :=
+  [.text cs!"a 50% ",
+   .delem (.def_ cs!"f" [(cs!"x", none), (cs!"p", some (.lit (.atom (.str cs!"Z"))))])
+     [.expr (.pure (.var cs!"x")), .text cs!".", .expr (.pure (.eq (.var cs!"p") (.lit (.atom .none))))],
+   .delem (.for_ cs!"it" (.lit (.list [.int 1, .int (-2)])))
+     [.expr (.call (.var cs!"f") [(none, .ix (.var cs!"d") (.lit (.atom (.str cs!"k")))), (some cs!"p", .lit (.atom .none))]),
+      .text cs!", "],
+   .expr (.pure (.len (.lit (.dict [(cs!"k", .bool true)]))))]
+
+example : nodesNew exInv =
+    cs!"a 50% {% def f(x, p='Z') %}${x}.${(p == None)}{% end %}{% for it in [1, (-2)] %}${f(d['k'], p=None)}, {% end %}${len({'k': True})}" := by
+  decide
+
+example : nodesOk false exInv = true ∧ Genshi.Py.Lex.unmodelled (nodesNew exInv) = false := by decide
+
+example : rawToks false false (nodesNew exInv) = .ok (toTokss exInv) :=
+  raw_print_roundtrip false exInv (by decide) (by decide)
+
+end Inversion
 
 end Genshi.Props.C04
